@@ -1,4 +1,5 @@
 // C03 finding C03-F4 (tag "outer_unit_complex_zero"): outer(a,b) with a complex Tensor<T,1> operand returns zeros.
+// Registered in known_findings.json as D30.
 //   g++ -std=c++14 -O2 -I/repo c03_f4_outer_unit_complex.cpp && ./a.out      (every ISA)
 // The Tensor<T,1> overloads of outer (outerproduct.h) evaluate the expression  a * b.toscalar() ; for std::complex element
 // types the library evaluates scalar*tensor expressions to zero (the complex-expression defect of C02), so the outer product is 0.
